@@ -58,7 +58,8 @@ static void run_script(char* text) {
         if (c == 'P') {            /* P<h>=<hex> */
             int h = (int) strtol(a, (char**) &a, 10);
             a++;
-            if (g_h[h]) { edn_free(g_h[h]); g_h[h] = NULL; buf_free(&g_hbuf[h]); }
+            if (g_h[h]) { edn_free(g_h[h]); g_h[h] = NULL; }
+            if (g_hbuf[h].p) buf_free(&g_hbuf[h]);
             g_hbuf[h] = buf_from_hex(a);
             edn_result_t r = g_hbuf[h].n ? edn_read(g_hbuf[h].p, g_hbuf[h].n) : edn_read("", 0);
             g_h[h] = r.value;
@@ -67,7 +68,7 @@ static void run_script(char* text) {
             int h = atoi(a);
             if (g_h[h]) edn_free(g_h[h]);
             g_h[h] = NULL;
-            buf_free(&g_hbuf[h]);
+            if (g_hbuf[h].p) buf_free(&g_hbuf[h]);
             printf("freed");
         } else if (c == 'H') {     /* H<ref> : hash */
             edn_value_t* v = ref(a, NULL);
@@ -96,6 +97,7 @@ static void run_script(char* text) {
         } else if (c == 'W' || c == 'N' || c == 'T') {  /* keyword / namespaced keyword / string-key helpers */
             const char* r2;
             edn_value_t* coll = ref(a, &r2);
+            if (!coll) { printf("nonode"); continue; }
             char* arg = strdup(r2 + 1);
             /* arguments are hex strings (NUL-free): W<ref>,<namehex>  N<ref>,<nshex>,<namehex>  T<ref>,<keyhex> */
             char* second = strchr(arg, ',');
@@ -142,7 +144,10 @@ static void run_script(char* text) {
         } else printf("badop");
     }
     printf("\n");
-    for (int h = 0; h < MAXH; h++) if (g_h[h]) { edn_free(g_h[h]); g_h[h] = NULL; buf_free(&g_hbuf[h]); }
+    for (int h = 0; h < MAXH; h++) {
+        if (g_h[h]) { edn_free(g_h[h]); g_h[h] = NULL; }
+        if (g_hbuf[h].p) buf_free(&g_hbuf[h]);
+    }
 }
 
 /* dump without source ranges: type/contents only (used by scripts) */
